@@ -46,7 +46,7 @@ def required_cells(tier):
             "pass-with-modes", "user-extends-builtin", "user-redefines-as-alias", "implicit==explicit", "alias==target",
             "repeat-parse", "implicit-option:attached-value", "builtin:gcc", "builtin:clang", "builtin:icx", "builtin:nvcc", "e2e:_OPENMP", "e2e:__CUDA_ARCH__",
             "e2e:__SYCL_DEVICE_ONLY__", "e2e:passes-differ-in-include-files", "unknown-compiler", "e2e:passes-differ-in-include-paths", "format:$value", "format:${value}", "argv0:symlink-to-known-compiler",
-            "implicit-option:dollar-name-set-in-environment", "argv:strict-prefix-of-configured-flag"]
+            "implicit-option:dollar-name-set-in-environment", "argv:strict-prefix-of-configured-flag", "e2e:launcher-as-argv0"]
 
 
 # ------------------------------------------------------------------ TOML --
@@ -495,13 +495,21 @@ def end_to_end(ctx, config, builtin, rng, work):
         if not ctx.mine(i):
             continue
         entries = [{"file": src, "directory": work, "arguments": [name] + argv[:-1] + ["-c", src]}]
+        if i % 4 == 1:
+            # the command is started through a launcher: argv[0] is the launcher, which no definition describes; what
+            # follows is just its arguments
+            launcher = rng.choice(["ccache", "sccache", "distcc", "/usr/bin/icecc", "time"])
+            entries[0]["arguments"] = [launcher] + entries[0]["arguments"]
+            cells_launcher = True
+        else:
+            cells_launcher = False
         if i % 3 == 0:
             entries.append({"file": src, "directory": work, "arguments": [name2] + argv2[:-1] + ["-c", src]})
         db = os.path.join(work, "e2e.json")
         with open(db, "w") as f:
             json.dump(entries, f)
         problems = []
-        cells = set()
+        cells = {"e2e:launcher-as-argv0"} if cells_launcher else set()
         try:
             conf = config.load_database(db, work)
             state, _ = cbi.run_find(work, {"p": conf})
